@@ -77,7 +77,7 @@ func (h *Harness) run() {
 		if o := os.Getenv("C07_ONLY"); o != "" && o != w.Name {
 			continue
 		}
-		if !h.doWorkload(w, 0, "") {
+		if !h.doWorkload(w, 0, "", "") {
 			exhaustive = false
 		}
 	}
@@ -90,7 +90,7 @@ func (h *Harness) run() {
 
 // doWorkload runs one workload, enumerates all its crash points (or just `only`), returns true if every
 // point of the workload was captured and evaluated.
-func (h *Harness) doWorkload(w Workload, only int, onlyMode string) bool {
+func (h *Harness) doWorkload(w Workload, only int, onlyMode string, onlySecond string) bool {
 	r := h.r
 	wr := runWorkload(h.root, h.base, w, only)
 	if os.Getenv("C07_KEEP") == "" {
@@ -151,6 +151,8 @@ func (h *Harness) doWorkload(w Workload, only int, onlyMode string) bool {
 			jobs = append(jobs, &job{hit: ht, mode: m})
 		}
 	}
+	// second-crash cases get their own copies, taken BEFORE any child starts to modify the capture
+	s2 := h.stage2Select(w, wr, only, onlySecond)
 	// the library-mode child gets its own copy, taken BEFORE any child starts to modify the capture
 	for _, j := range jobs {
 		if j.mode == "library" {
@@ -195,6 +197,7 @@ func (h *Harness) doWorkload(w Workload, only int, onlyMode string) bool {
 				"reopened_height": hOf(j.res.S1), "recovered_height": hOf(j.res.S2), "final_height": hOf(j.res.S3)})
 		}
 	}
+	h.stage2Run(w, wr, blocksFile, s2, onlySecond)
 	if only == 0 && (r.Thorough() || r.Replay != "" || w.Name == "extend" || w.Name == "reorg-after-save" || w.Name == "gen0") {
 		h.truncations(w, wr, blocksFile)
 	}
@@ -210,8 +213,12 @@ func hOf(s *State) interface{} {
 
 // judge evaluates the property's own predicate on one re-open report. Returns true when it holds.
 func (h *Harness) judge(w Workload, wr *WlRun, ht Hit, mode string, c *ChildRes) bool {
+	return h.judge2(w, wr, ht, mode, c, "")
+}
+
+func (h *Harness) judge2(w Workload, wr *WlRun, ht Hit, mode string, c *ChildRes, second string) bool {
 	r := h.r
-	rep := map[string]interface{}{"case": Case{Workload: w.Name, Hit: ht.N, Mode: mode}, "point": ht.Name, "hit_index": ht.Idx, "ops": w.Ops, "child": c, "expected_final": wr.Final}
+	rep := map[string]interface{}{"case": Case{Workload: w.Name, Hit: ht.N, Mode: mode, Second: second}, "point": ht.Name, "hit_index": ht.Idx, "ops": w.Ops, "child": c, "expected_final": wr.Final}
 	where := fmt.Sprintf("workload %s, crash at %s#%d (point %d), %s re-open", w.Name, ht.Name, ht.Idx, ht.N, mode)
 	known := map[string]bool{h.base.Tip: true, h.ref.gen: true}
 	for i := 0; i < ht.NSub && i < len(wr.Names); i++ {
@@ -246,7 +253,10 @@ func (h *Harness) judge(w Workload, wr *WlRun, ht Hit, mode string, c *ChildRes)
 			r.Hit("known:" + keyLib)
 			return false
 		}
-		if offBranch() {
+		// F8 needs BOTH: the loaded snapshot is off the branch recovery moves to, AND an undo file of the snapshot's own chain
+		// has been rewritten by another block (seen in the captured directory right after NewChainExt). A missing undo file,
+		// or a failure while every undo file still belongs to its block, is a different defect.
+		if offBranch() && (mode == "library" || len(c.UndoForeign) > 0) {
 			if mode == "library" && strings.Contains(c.Open, "unknown path to block") {
 				r.PropFail(keyLib, "library-mode NewChainExt (DoNotRescan=false) panics in FindPathTo when the snapshot's block is not an ancestor of the farthest block on disk: "+where+": "+what, rep)
 				r.Hit("known:" + keyLib)
@@ -300,6 +310,136 @@ func (h *Harness) judge(w Workload, wr *WlRun, ht Hit, mode string, c *ChildRes)
 		return fail("clean-restart-differs", fmt.Sprintf("clean close + re-open: tip %s dump %s, before: tip %s dump %s", c.S4.Tip[:16], c.S4.Dump, c.S3.Tip[:16], c.S3.Dump))
 	}
 	return true
+}
+
+// ------------------------------------------------------------------------------------------ two crashes
+
+// A second-crash case: the directory captured at the first crash point is re-opened by a fresh process that recovers like
+// the client, is fed every block of the workload (no snapshot is allowed to start), flushes them, and is "killed" again
+// (captures at blockdb.write:idx-written hits and after Idle; thorough: at every point). Each second capture is then
+// re-opened by another fresh process and judged with the property's predicate like a single-crash case.
+type s2case struct {
+	hit   Hit
+	trunc bool   // the index lost its last record before the first restart (truncated-index-then-continue)
+	dir   string // private copy of the first capture
+	res   *ChildRes
+}
+
+func (h *Harness) stage2Select(w Workload, wr *WlRun, only int, onlySecond string) (cs []*s2case) {
+	r := h.r
+	if w.Free || (only != 0 && onlySecond == "") {
+		return nil
+	}
+	quickSet := w.Name == "extend" || w.Name == "reorg-save-extend" || w.Name == "gen0"
+	if !r.Thorough() && only == 0 && !quickSet {
+		return nil
+	}
+	idxSeen := 0
+	lastPub := -1
+	for i, ht := range wr.Hits {
+		if ht.Name == "blockdb.write:before-publish" {
+			lastPub = i
+		}
+	}
+	for i, ht := range wr.Hits {
+		if only != 0 && ht.N != only {
+			continue
+		}
+		take := false
+		switch ht.Name {
+		case "blockdb.write:dat-written":
+			take = true
+		case "blockdb.write:idx-written":
+			idxSeen++
+			take = r.Thorough() || idxSeen == 1 || only != 0
+		case "blockdb.write:before-dat", "blockdb.write:before-publish":
+			take = r.Thorough() && only == 0
+		}
+		if take && !strings.HasPrefix(onlySecond, "t") {
+			c := &s2case{hit: ht, dir: fmt.Sprintf("%s/%04d-s2/", wr.Snaps, ht.N)}
+			if copyTree(fmt.Sprintf("%s/%04d/", wr.Snaps, ht.N), c.dir) == nil {
+				cs = append(cs, c)
+			}
+		}
+		if (i == lastPub && only == 0) || (only != 0 && strings.HasPrefix(onlySecond, "t")) {
+			c := &s2case{hit: ht, trunc: true, dir: fmt.Sprintf("%s/%04d-s2t/", wr.Snaps, ht.N)}
+			if copyTree(fmt.Sprintf("%s/%04d/", wr.Snaps, ht.N), c.dir) == nil {
+				if st, err := os.Stat(c.dir + "blockchain.new"); err == nil && st.Size() >= 136 {
+					os.Truncate(c.dir+"blockchain.new", st.Size()-st.Size()%136-136)
+					cs = append(cs, c)
+				}
+			}
+		}
+	}
+	return
+}
+
+func (h *Harness) stage2Run(w Workload, wr *WlRun, blocksFile string, cs []*s2case, onlySecond string) {
+	r := h.r
+	if len(cs) == 0 {
+		return
+	}
+	if r.Thorough() {
+		os.Setenv("C07_S2_ALL", "1")
+	}
+	var wg sync.WaitGroup
+	sem := make(chan bool, 12)
+	for _, c := range cs {
+		wg.Add(1)
+		sem <- true
+		go func(c *s2case) {
+			defer wg.Done()
+			c.res = runChild("stage2", c.dir, blocksFile)
+			<-sem
+		}(c)
+	}
+	wg.Wait()
+	type j2 struct {
+		c   *s2case
+		cap SecondCap
+		res *ChildRes
+	}
+	var jobs []*j2
+	for _, c := range cs {
+		h.nChild++
+		pre := ""
+		if c.trunc {
+			pre = "t"
+		}
+		for _, sc := range c.res.Second {
+			if onlySecond != "" && pre+sc.Name != onlySecond {
+				continue
+			}
+			jobs = append(jobs, &j2{c: c, cap: sc})
+		}
+		if len(c.res.Second) == 0 {
+			r.Hit("second-crash:first-restart-did-not-continue")
+		}
+	}
+	for _, j := range jobs {
+		wg.Add(1)
+		sem <- true
+		go func(j *j2) {
+			defer wg.Done()
+			j.res = runChild("client", strings.TrimRight(j.c.dir, "/")+".s2/"+j.cap.Name+"/", blocksFile)
+			<-sem
+		}(j)
+	}
+	wg.Wait()
+	for _, j := range jobs {
+		h.nChild++
+		first := j.c.hit.Name
+		pre := ""
+		if j.c.trunc {
+			first += "/index-minus-one-record"
+			pre = "t"
+		}
+		name := fmt.Sprintf("%s#%d then %s", first, j.c.hit.Idx, j.cap.Point)
+		ph := Hit{N: j.c.hit.N, Name: name, Idx: j.cap.Idx, OpIdx: j.c.hit.OpIdx, NSub: len(wr.Names), SnapOK: j.c.hit.SnapOK}
+		r.Eval("second-crash/"+w.Shape, fmt.Sprintf("%s|%s|%d|%s|%d", w.Name, first, j.c.hit.Idx, j.cap.Point, j.cap.Idx))
+		r.Hit("second-point:" + j.cap.Point)
+		h.judge2(w, wr, ph, "client", j.res, pre+j.cap.Name)
+	}
 }
 
 // ------------------------------------------------------------------------------------------ truncations
@@ -632,9 +772,9 @@ func (h *Harness) replay() {
 	for _, w := range ws {
 		if w.Name == c.Workload {
 			if c.Trunc != "" {
-				h.doWorkload(w, 0, "")
+				h.doWorkload(w, 0, "", "")
 			} else {
-				h.doWorkload(w, c.Hit, c.Mode)
+				h.doWorkload(w, c.Hit, c.Mode, c.Second)
 			}
 			return
 		}
